@@ -81,10 +81,14 @@ def run(ctx, w, spec, versions):
     # defaults and names
     f = w.fn(PL + "RoomPowerLevelsIntField::default_value")
     got = {}
-    for p in dex.paths(f, [D.sym("self")]):
-        v = [a[2] for a, t in p.conds if a[0] == "variant" and t]
-        if v and p.kind == "ret":
-            got[v[0]] = int_of(p.ret)
+    dpaths = [p for p in dex.paths(f, [D.sym("self")]) if p.kind == "ret"]
+    adt_f = w.adts.get(PL + "RoomPowerLevelsIntField")
+    for V_ in ([v_["name"] for v_ in adt_f["variants"]] if adt_f else []):
+        # the paths a value of this variant can take: every variant test on the path has the outcome it has for V_ (a `matches!` flag or a wildcard arm
+        # leaves only negative tests on the path of the other variants)
+        cands = {int_of(p.ret) for p in dpaths if all((a[2] == V_) == t for a, t in p.conds if a[0] == "variant")}
+        if len(cands) == 1:
+            got[V_] = cands.pop()
     ctx.check(got == spec.DEFAULT_LEVELS, rule, f"{rule}:defaults", w.where(f), bad_msg=f"default levels are {got}, the specification says {spec.DEFAULT_LEVELS}")
     f = w.fn(f"<{PL}RoomPowerLevelsIntField as core::convert::AsRef<str>>::as_ref")
     names = {}
